@@ -253,7 +253,7 @@ class PyClosure:
 
 
 LIST_IDENTITY = ("core::slice::<impl [T]>::iter", "core::ops::deref::Deref::deref", "core::ops::deref::DerefMut::deref_mut", "core::slice::<impl [T]>::iter_mut", "core::iter::traits::collect::IntoIterator::into_iter",
-                 "alloc::vec::Vec::<T, A>::as_slice", "core::iter::traits::iterator::Iterator::copied",
+                 "alloc::vec::Vec::<T, A>::as_slice", "alloc::vec::Vec::<T, A>::as_mut_slice", "core::iter::traits::iterator::Iterator::copied",
                  "core::iter::traits::iterator::Iterator::cloned", "alloc::slice::<impl [T]>::to_vec")
 
 
